@@ -16,7 +16,7 @@ t=$(/venv/bin/python -m pytest -q -p no:cacheprovider -x 2>&1 | tail -1)
 echo "demo without=$a with=$b tests: $t"
 echo "demo says: $(tail -2 _demo.out | tr '\n' ' ')"
 cd /verif
-VERIF_REPO=$WT ./check $P --tier ${TIER:-quick} "$@" > /tmp/seed_$$.log 2>&1; rc=$?
+VERIF_STOP_ON_VIOLATION=${STOP:-1} VERIF_REPO=$WT ./check $P --tier ${TIER:-quick} "$@" > /tmp/seed_$$.log 2>&1; rc=$?
 grep -E "^(VIOLATION|counterexample|KNOWN|INCONCLUSIVE|HARNESS|C[0-9]+ tier)" /tmp/seed_$$.log | cut -c1-400 | head -12
 echo "check rc=$rc"
 rm -f /tmp/seed_$$.log
